@@ -3,6 +3,7 @@ import Driver.PyJson
 import Torf.Model.Untrusted
 import Torf.Model.QueryString
 import Torf.Model.PyStrip
+import Torf.Model.PyInt
 open Lean Torf Torf.Bencode Torf.Untrusted
 namespace Driver.C08
 
@@ -125,9 +126,10 @@ def mkOracle (j : Json) : Except String MagnetOracle := do
       let v : Option Int ← if a[1].isNull then pure none else some <$> parseInt (← a[1].getStr?)
       pure ((← a[0].getStr?), v)
     else throw "ints entry"
+  -- `int()`: the Lean model on ASCII strings, the harness's table elsewhere
   return { urlparse := fun _ => upv, parseQs := fun _ => qs,
            isUrl := fun s => (urls.lookup s).getD false,
-           intOf := fun s => (ints.lookup s).getD none,
+           intOf := intOfM 4300 (fun s => (ints.lookup s).getD none),
            split := fun s => (s.splitOn " ").filter (· != "") }
 
 /-- table of (string with '%', `unquote(string)`) supplied by the harness; strings without '%' never
@@ -156,11 +158,19 @@ def magnetOp (j : Json) : Except String Json := do
     | some (_, query) => (parseQs pct query == o.parseQs query, numFields query.toList)
   let qsOk := (o.parseQs "").all fun kv => !kv.2.isEmpty
   -- `uri.strip()`: the model's result against the harness's (absent = not compared), and its step count
+  -- the model of int() against the harness's int() on every ASCII string of the table
+  let intAgree ← (← getArr j "ints").allM fun e => do
+    let a ← e.getArr?
+    if h : a.size = 2 then
+      let k ← a[0].getStr?
+      let v : Option Int ← if a[1].isNull then pure none else some <$> parseInt (← a[1].getStr?)
+      pure (!isAsciiStr k.toList || pyIntAscii 4300 k.toList == v)
+    else throw "ints entry"
   let strippedM := String.ofList (pyStrip uri.toList)
   let stripAgree := match j.getObjValAs? String "stripped" with
     | .ok s => s == strippedM
     | .error _ => true
-  return jobj [("stripAgree", jbool stripAgree), ("stripSteps", jnat (stripSteps uri.toList)),
+  return jobj [("intAgree", jbool intAgree), ("stripAgree", jbool stripAgree), ("stripSteps", jnat (stripSteps uri.toList)),
                ("model", jobj [("kind", jstr (kindOf r)),
                                ("infohash", match r with | .ok m => jstr m.infohash | .error _ => Json.null),
                                ("xl", match r with
